@@ -6,6 +6,9 @@ def T(shards=8, procs=2, timeout=600, **kw):
     return d
 
 CHECKS = {
+    "C06": {"pkg": "c06", "level": "exploration",
+            "quick": T(8, 2, 600), "thorough": T(14, 1, 2400),
+            "assumptions": ["records of one round are written at quiescence so they carry consecutive sequence numbers", "sliding-window model used one-sidedly as the statement is worded"]},
     "C02": {"pkg": "c02", "level": "fault_enumeration",
             "quick": T(8, 2, 900), "thorough": T(14, 1, 3000),
             "assumptions": ["faults never modify bytes", "liveness decided up to a 30 min virtual deadline", "network reliable after the masked prefix"]},
